@@ -5,3 +5,6 @@ pub mod run;
 pub mod sched;
 pub mod world;
 pub mod gen;
+pub mod driver;
+pub mod shrink;
+pub mod stats;
